@@ -110,7 +110,15 @@ impl<'a, K, V> IntoIterator for &'a HashMap<K, V> {
 impl JsonMap {
     #[verifier::external_body]
     pub fn get(&self, k: &String) -> (r: Option<&Value>) ensures r == obj_get(self, k@) { unimplemented!() }
+    /// number of keys; no cardinality axiom is given, so nothing about WHICH keys are present follows from it
+    #[verifier::external_body]
+    pub fn len(&self) -> (r: usize) ensures r == obj_len(self) { unimplemented!() }
 }
+impl<K, V> HashMap<K, V> {
+    #[verifier::external_body]
+    pub fn len(&self) -> (r: usize) ensures r == entries(self).len() { unimplemented!() }
+}
+pub uninterp spec fn obj_len(o: &JsonMap) -> usize;
 #[verifier::external_body]
 pub fn type_allows_value(ft: &FieldType, v: &Value) -> (r: bool) ensures r == allows(ft, v) { unimplemented!() }
 /// E7: stands for every `format!(..)` of the function
